@@ -460,7 +460,67 @@ static void run_table_case(vh_rng* r, int mode, int universe, int nops, int swee
 
 static int big_cases;
 
+/* ---------- one key, two representations: Float keys 0.0 and -0.0 ----------
+** Cmp says the two zeros are equal, so they are ONE key: whichever spelling sets, gets, tests or removes it, the
+** table holds at most one binding for it -- at every table size (other Float keys grow the table in between). */
+static void float_zero_keys(vh_rng* r) {
+  var t = new(Table, Float, Int);
+  double pz = 0.0, nz = -0.0;
+  int others = 0, ok = 1;
+  int rounds = 2 + (int)vh_below(r, 5);
+  for (int round = 0; round < rounds && ok; round++) {
+    int first_neg = (int)vh_below(r, 2);
+    int64_t a = vh_range(r, 1, 1000), b = a + 1;
+    var exc = NULL;
+    VH_CATCH(set(t, $F(first_neg ? nz : pz), $I(a)), exc);
+    if (!exc) { VH_CATCH(set(t, $F(first_neg ? pz : nz), $I(b)), exc); }
+    vh_evals(6);
+    if (exc) { vh_violation("C02:float-zero:raised", "set with a zero key raised %s", vh_exc_name(exc)); break; }
+    size_t zeros = 0; foreach (k in t) { if (c_float(k) == 0.0) { zeros++; } }
+    if (len(t) != (size_t)others + 1 || zeros != 1) { vh_violation("C02:float-zero:two-bindings-for-one-key", "after set(%s0.0) and set(%s0.0) the table of %d other keys has len %zu and %zu zero keys", first_neg ? "-" : "+", first_neg ? "+" : "-", others, len(t), zeros); ok = 0; break; }
+    if (!mem(t, $F(pz)) || !mem(t, $F(nz)) || c_int(get(t, $F(pz))) != b || c_int(get(t, $F(nz))) != b) { vh_violation("C02:float-zero:lookup-depends-on-the-sign-of-zero", "after the second set the two spellings of zero do not both find value %" PRId64, b); ok = 0; break; }
+    VH_CATCH(rem(t, $F(vh_chance(r, 50) ? nz : pz)), exc);
+    if (exc || mem(t, $F(pz)) || mem(t, $F(nz)) || len(t) != (size_t)others) { vh_violation("C02:float-zero:removed-key-still-found", "after rem of zero: exception %s, mem(+0)=%d mem(-0)=%d len %zu (expected %d)", vh_exc_name(exc), (int)mem(t, $F(pz)), (int)mem(t, $F(nz)), len(t), others); ok = 0; break; }
+    VH_CATCH((void)get(t, $F(nz)), exc);
+    if (exc != KeyError) { vh_violation("C02:float-zero:get-absent-no-keyerror", "get(-0.0) after its removal gave %s", vh_exc_name(exc)); ok = 0; break; }
+    /* grow the table before the next round */
+    int add = 1 + (int)vh_below(r, 12);
+    for (int i = 0; i < add; i++) { set(t, $F(1.5 + (double)(others++) * 0.25), $I(7)); }
+  }
+  vh_count("float_tables_with_both_zeros_as_keys");
+  del(t);
+}
+
+/* ---------- a stored value used as a key ----------
+** In a Table from Int to Int a value handed out by get is an Int like any other: used as a key it is looked up by
+** its number (get and mem agree), wherever in the table's own storage the object happens to live. */
+static void stored_value_as_key(vh_rng* r) {
+  int n = 1 + (int)vh_below(r, 60);
+  var t = new(Table, Int, Int);
+  for (int i = 0; i < n; i++) { set(t, $I(i), $I((i + 1) % n)); }
+  if (vh_chance(r, 30)) { resize(t, (size_t)n * 3); }
+  for (int i = 0; i < n; i++) {
+    var v = get(t, $I(i));                       /* the Int (i+1)%n, living inside the table */
+    int64_t want = ((i + 1) % n + 1) % n;        /* what key (i+1)%n is bound to */
+    var exc = NULL; var got = NULL; bool m = false;
+    VH_CATCH(m = mem(t, v), exc);
+    if (!exc) { VH_CATCH(got = get(t, v), exc); }
+    vh_evals(2);
+    if (exc || !m || c_int(got) != want) {
+      vh_violation("C02:stored-value-as-key:get-disagrees-with-the-mapping", "Table{i -> (i+1) mod %d}: get(t, get(t, %d)) gave %s%" PRId64 " (mem %d), the mapping says %" PRId64, n, i,
+                   exc ? vh_exc_name(exc) : "", exc || !got ? (int64_t)-1 : c_int(got), (int)m, want);
+      break;
+    }
+  }
+  /* keys handed out by the iteration still find their own value */
+  foreach (k in t) { vh_eval(); if (c_int(get(t, k)) != (c_int(k) + 1) % n) { vh_violation("C02:stored-value-as-key:iteration-key-finds-another-value", "get(t, iteration key %" PRId64 ") is wrong", c_int(k)); break; } }
+  vh_count("tables_queried_with_their_own_stored_values");
+  del(t);
+}
+
 static void case_random(vh_rng* r, long index) {
+  float_zero_keys(r);
+  stored_value_as_key(r);
   int mode = (int)(index % KM_COUNT);
   int big = vh.thorough && big_cases && (index % 23 == 0);
   int universe, nops, sweep = vh_chance(r, 50);
